@@ -335,6 +335,27 @@ def invert (pivoting : Bool) (A : Mat (V K) n) : Option (Mat (V K) n) :=
     | none => none
     | some st => some (invUnpermute X st.aux (invBackward X R st.A (invForward X R st.A (identity X R))))
 
+-- the configuration DUNE_FMatrix_WITH_CHECKING ----------------------------------------------------------------
+
+/-- `Simd::anyTrue(fvmeta::absreal(d) < FMatrixPrecision<>::absolute_limit())`: the test the checked configuration puts in
+    front of the closed forms; `chk = none`: the macro is not defined; `chk = some below` with `below x` the scalar test
+    `absreal(x) < absolute_limit()` (a `vector < scalar` comparison: lane-wise by `lane_op_compare`) -/
+def singularChecked (chk : Option (K → Bool)) (d : V K) : Bool :=
+  match chk with
+  | none => false
+  | some below => X.anyTrue (X.map below d)
+
+/-- `DenseMatrix::solve` in either configuration: with `DUNE_FMatrix_WITH_CHECKING` the closed forms `n = 1, 2, 3` first test
+    `(*this)[0][0]`, `a00*a11 - a01*a10`, `determinant(doPivoting)` (in every case the value `determinant` returns) and
+    throw `FMatrixError` if *any* lane is below the limit; `n ≥ 4` is unchanged (`luDecomposition` throws early) -/
+def solveC (chk : Option (K → Bool)) (pivoting : Bool) (A : Mat (V K) n) (b : Vector (V K) n) : Option (Vector (V K) n) :=
+  if 1 ≤ n ∧ n ≤ 3 ∧ singularChecked X chk (determinant X R pivoting A) = true then none else solve X R pivoting A b
+
+/-- `DenseMatrix::invert` in either configuration: the test exists for `n = 1, 2` only (the `n = 3` closed form and the LU
+    path have none) -/
+def invertC (chk : Option (K → Bool)) (pivoting : Bool) (A : Mat (V K) n) : Option (Mat (V K) n) :=
+  if 1 ≤ n ∧ n ≤ 2 ∧ singularChecked X chk (determinant X R pivoting A) = true then none else invert X R pivoting A
+
 -- products and norms -----------------------------------------------------------------------------------
 
 /-- `mv`: `y[i] = 0; y[i] += A[i][j]*x[j]` -/
